@@ -73,6 +73,9 @@ type State struct {
 	noTrig   bool
 	pendingBound []string
 	instDepth int
+	guards    []guardAt // branch conditions assumed so far (event index, condition)
+	arrPred   *ssa.BasicBlock
+	mergedAtStop bool
 }
 
 func (s *State) clone() *State {
@@ -97,6 +100,7 @@ func (s *State) clone() *State {
 	}
 	n.defers = s.defers[:len(s.defers):len(s.defers)]
 	n.univ = s.cloneUniv()
+	n.guards = s.guards[:len(s.guards):len(s.guards)]
 	if s.terms != nil {
 		n.terms = make(map[string][]string, len(s.terms))
 		for k, v := range s.terms {
